@@ -96,6 +96,13 @@ def blocks(kf):
     bl.append((None, 'fn_end', P7))
     return bl
 
+# the contract of recreate_graph (non-KF clauses); unit `minimize` assumes exactly this text at its call site
+RECREATE_REQ = ['forall|j: int| 0 <= j < p@.len() ==> (#[trigger] p@[j])@.len() > 0 && p@[j]@.finite()', 'pairwise_disjoint(p@)',
+                'union_upto(p@, p@.len() as int).contains(old(self).initial_state)',
+                'forall|a: State, b: State| #[trigger] old(self).graph.edges().contains_key((a, b)) ==> union_upto(p@, p@.len() as int).contains(b)']
+RECREATE_POST = ('exists|m: Map<State, State>| m.dom() == union_upto(p@, p@.len() as int) && final(self).initial_state == m[old(self).initial_state]'
+                 ' && #[trigger] finals_exact(m, old(self).final_state_indices@, final(self).final_state_indices@) && reps_copied(p@, p@.len() as int, m, old(self).graph.edges(), final(self).graph.edges(), old(self).final_state_indices@, final(self).final_state_indices@)')
+
 def build(repo, spec_dir, kf=False, canary=False):
     b = Builder('dfa_kf' if kf else 'dfa', repo, canary)
     b.emit('#![feature(allocator_api)]\nuse vstd::prelude::*;\nuse vstd::std_specs::cmp::*;\nuse vstd::std_specs::iter::IteratorSpec;\nuse vstd::std_specs::hash::*;\nuse vstd::std_specs::vec::*;\nuse std::collections::{BTreeSet, HashMap, HashSet};\nverus! {')
@@ -112,21 +119,18 @@ def build(repo, spec_dir, kf=False, canary=False):
     b.verified_fn('cluster.rs', 'graphemes', within="^impl<'a> GraphemeCluster<'a> \\{", clauses=[Clause('cluster.graphemes', '*r == self.graphemes', ['C01'])], props=['C07'], fname='GraphemeCluster::graphemes')
     b.emit("}\nimpl<'a> Dfa<'a> {")
     D = "^impl<'a> Dfa<'a> \\{"
-    req = ['forall|j: int| 0 <= j < p@.len() ==> (#[trigger] p@[j])@.len() > 0 && p@[j]@.finite()', 'pairwise_disjoint(p@)',
-           'union_upto(p@, p@.len() as int).contains(old(self).initial_state)',
-           'forall|a: State, b: State| #[trigger] old(self).graph.edges().contains_key((a, b)) ==> union_upto(p@, p@.len() as int).contains(b)']
+    req = RECREATE_REQ
     F, F2 = 'old(self).final_state_indices@', 'final(self).final_state_indices@'
     if kf:
         post = 'exists|m: Map<State, State>| m.dom() == union_upto(p@, p@.len() as int) && #[trigger] finals_sound(m, %s, %s)' % (F, F2)
         cl = [Clause('recreate.finals_sound', post, ['C01', 'C16'])]
     else:
-        post = ('exists|m: Map<State, State>| m.dom() == union_upto(p@, p@.len() as int) && final(self).initial_state == m[old(self).initial_state]'
-                ' && #[trigger] finals_exact(m, %s, %s) && reps_copied(p@, p@.len() as int, m, old(self).graph.edges(), final(self).graph.edges(), %s, %s)' % (F, F2, F, F2))
+        post = RECREATE_POST
         cl = [Clause('recreate.initial_exact_edges', post, ['C01', 'C02', 'C16'])]
     b.verified_fn('dfa.rs', 'recreate_graph', within=D, requires=req, clauses=cl, props=['C07', 'C01', 'C02', 'C16'], loops=loops(kf), blocks=[tuple(x) + ((('recreate.finals_sound', ['C01', 'C16']) if kf else ('recreate.initial_exact_edges', ['C01', 'C02', 'C16'])),) for x in blocks(kf)], fname='Dfa::recreate_graph')
     b.emit('}\n} // verus!\nimpl Clone for Grapheme { fn clone(&self) -> Self { unimplemented!() } }\nimpl PartialEq for Grapheme { fn eq(&self, o: &Self) -> bool { unimplemented!() } }\nimpl Eq for Grapheme {}\nimpl PartialOrd for Grapheme { fn partial_cmp(&self, o: &Self) -> Option<std::cmp::Ordering> { unimplemented!() } }\nimpl Ord for Grapheme { fn cmp(&self, o: &Self) -> std::cmp::Ordering { unimplemented!() } }\nfn main() {}')
     b.trusted += ['petgraph stand-in (StableGraph::{new, add_node, add_edge, neighbors, find_edge, edge_weight}, NodeIndex::index) with ghost nodes/edges; NodeIndex obeys the hash-key model',
-                  'preconditions of recreate_graph (non-empty, pairwise disjoint, covering classes) are assumed of its unverified caller minimize',
+                  'preconditions of recreate_graph (non-empty, pairwise disjoint, covering classes) are proved at its call site in unit minimize',
                   'derived Clone on Grapheme is structural']
     return b
 
@@ -232,7 +236,8 @@ def build_trie(repo, spec_dir, canary=False):
                           (None, 'fn_end', '        proof { assert(cluster.graphemes@.take(cluster.graphemes@.len() as int) =~= cluster.graphemes@); assert(self.final_state_indices@ == old(self).final_state_indices@.insert(current_state.ix as usize)); }')])
     b.verified_fn('dfa.rs', 'new', within=D, props=['C07'], fname='Dfa::new',
                   clauses=[Clause('dfa_new.empty_automaton', 'r.graph.edges() == Map::<(State, State), Grapheme>::empty() && r.graph.nodes() == set![r.initial_state] && r.final_state_indices@ == Set::<usize>::empty() && r.config == config', ['C01', 'C16'])])
-    b.assumed_fn('dfa.rs', 'minimize', within=D, ensures=['true'], why='Hopcroft refinement (HashSet algebra, drain, enumerate().skip(), position(closure)); assumed language-preserving by the stage contract S2b, nothing is used here')
+    from units.minimize import NODES_OK, MINIMIZE_POST
+    b.assumed_fn('dfa.rs', 'minimize', within=D, requires=NODES_OK, ensures=[MINIMIZE_POST], why='verified in unit minimize against exactly this contract (language preservation of the refinement is NOT part of it: stage contract S2b)')
     ALL = 'forall|k: int| 0 <= k < %s ==> #[trigger] accepted_cov(%s.graph.edges(), %s.initial_state, %s.final_state_indices@, grapheme_clusters@[k].graphemes@)'
     b.verified_fn('dfa.rs', 'from', within=D, props=['C07'], fname='Dfa::from',
                   requires=['forall|k: int, i: int| 0 <= k < grapheme_clusters@.len() && 0 <= i < grapheme_clusters@[k].graphemes@.len() ==> exact_label(#[trigger] grapheme_clusters@[k].graphemes@[i])'],
